@@ -10,7 +10,8 @@
 (*                         out of work did not resume it                       *)
 (*   stranded_ready        a pass ran out of work while a coroutine that only  *)
 (*                         yielded (plain suspend) was not resumed             *)
-(*   resumed_after_cancel  a coroutine cancelled while waiting ran again       *)
+(*   resumed_after_cancel  a coroutine cancelled while waiting - or during the *)
+(*                         run slice it then ended by yielding - ran again     *)
 (*   result_twice / result_value / result_phantom / result_missing             *)
 (*   early_timeout         (informational) a syscall-state wait was timed out  *)
 (*                         before its own time by a stale timer entry          *)
@@ -26,10 +27,11 @@ VARIABLES l, scen,
           want,      \* [co -> announced outcome <<kind, v>>]
           nres,      \* [co -> results reported]
           passb,     \* begin time of the pass in progress
+          pend,      \* coroutines for which a cancel request was made while they were running
           nviol
-vars == <<l, scen, st, wake, cb, want, nres, passb, nviol>>
+vars == <<l, scen, st, wake, cb, want, nres, passb, pend, nviol>>
 
-Init == l = 1 /\ scen = 0 /\ st = <<>> /\ wake = <<>> /\ cb = <<>> /\ want = <<>> /\ nres = <<>> /\ passb = 0 /\ nviol = 0
+Init == l = 1 /\ scen = 0 /\ st = <<>> /\ wake = <<>> /\ cb = <<>> /\ want = <<>> /\ nres = <<>> /\ passb = 0 /\ pend = {} /\ nviol = 0
 Viol(clause, detail) == PrintT(<<"VIOL", l, clause, scen, detail>>)
 Count(b) == IF b THEN 1 ELSE 0
 Cos == DOMAIN st
@@ -58,10 +60,10 @@ Step ==
      CASE ev = "sreset" ->
             /\ scen' = r.scenario /\ st' = [c \in 1..r.nco |-> "none"] /\ wake' = [c \in 1..r.nco |-> -1]
             /\ cb' = [c \in 1..r.nco |-> FALSE] /\ want' = [c \in 1..r.nco |-> <<"none", 0>>]
-            /\ nres' = [c \in 1..r.nco |-> 0] /\ passb' = 0 /\ UNCHANGED nviol
+            /\ nres' = [c \in 1..r.nco |-> 0] /\ passb' = 0 /\ pend' = {} /\ UNCHANGED nviol
        [] ev = "submit" ->
-            /\ st' = [st EXCEPT ![r.co] = "ready"] /\ UNCHANGED <<scen, wake, cb, want, nres, passb, nviol>>
-       [] ev = "pass_b" -> passb' = r.now /\ UNCHANGED <<scen, st, wake, cb, want, nres, nviol>>
+            /\ st' = [st EXCEPT ![r.co] = "ready"] /\ UNCHANGED <<scen, wake, cb, want, nres, passb, pend, nviol>>
+       [] ev = "pass_b" -> passb' = r.now /\ UNCHANGED <<scen, st, wake, cb, want, nres, pend, nviol>>
        [] ev = "resumed" ->
             LET c == r.co
                 b1 == st[c] = "cancelled"
@@ -75,23 +77,27 @@ Step ==
                /\ nviol' = nviol + Count(b1) + Count(b2) + Count(b3) + Count(b4)
                /\ st' = [st EXCEPT ![c] = "running"] /\ wake' = [wake EXCEPT ![c] = -1]
                /\ cb' = [cb EXCEPT ![c] = FALSE]
-               /\ UNCHANGED <<scen, want, nres, passb>>
+               /\ UNCHANGED <<scen, want, nres, passb, pend>>
        [] ev = "yield" ->
             LET c == r.co IN
-            /\ st' = [st EXCEPT ![c] = CASE r.kind = "suspend" -> "ready"
+            \* a request made during the slice takes effect when the coroutine gives the thread back unfinished
+            /\ st' = [st EXCEPT ![c] = CASE r.kind \in {"suspend", "delay", "park"} /\ c \in pend -> "cancelled"
+                                         [] r.kind = "suspend" -> "ready"
                                          [] r.kind = "delay" -> "delay"
                                          [] r.kind = "park" -> "park"
                                          [] OTHER -> "done"]
+            /\ pend' = pend \ {c}
             /\ wake' = [wake EXCEPT ![c] = IF r.kind \in {"delay", "park"} THEN r.ts ELSE -1]
             /\ want' = [want EXCEPT ![c] = <<r.kind, r.v>>]
             /\ UNCHANGED <<scen, cb, nres, passb, nviol>>
        [] ev = "cancel" ->
             \* only a coroutine that is waiting (not finished) is affected by the request
             /\ st' = [st EXCEPT ![r.co] = IF @ \in {"ready", "delay", "park"} THEN "cancelled" ELSE @]
+            /\ pend' = IF st[r.co] = "running" THEN pend \cup {r.co} ELSE pend
             /\ UNCHANGED <<scen, wake, cb, want, nres, passb, nviol>>
        [] ev = "try_resume" ->
             /\ cb' = [cb EXCEPT ![r.co] = (st[r.co] = "park")]
-            /\ UNCHANGED <<scen, st, wake, want, nres, passb, nviol>>
+            /\ UNCHANGED <<scen, st, wake, want, nres, passb, pend, nviol>>
        [] ev = "pass_e" ->
             LET nbad == CheckResults(r.results, 1, nres, 0)
                 missed == {c \in Cos : st[c] \in {"delay", "park"} /\ wake[c] >= 0 /\ wake[c] < passb}
@@ -102,18 +108,18 @@ Step ==
                /\ (b2 => Viol("stranded_ready", strand))
                /\ nviol' = nviol + nbad + Count(b1) + Count(b2)
                /\ nres' = [c \in Cos |-> IF c \in Reported(r.results) THEN nres[c] + 1 ELSE nres[c]]
-               /\ UNCHANGED <<scen, st, wake, cb, want, passb>>
+               /\ UNCHANGED <<scen, st, wake, cb, want, passb, pend>>
        [] ev = "pass_err" -> /\ Viol("pass_error", r.msg) /\ nviol' = nviol + 1
-                             /\ UNCHANGED <<scen, st, wake, cb, want, nres, passb>>
+                             /\ UNCHANGED <<scen, st, wake, cb, want, nres, passb, pend>>
        [] ev = "died" -> /\ Viol(r.how, r.msg) /\ nviol' = nviol + 1
-                         /\ UNCHANGED <<scen, st, wake, cb, want, nres, passb>>
+                         /\ UNCHANGED <<scen, st, wake, cb, want, nres, passb, pend>>
        [] ev = "send" ->
             LET miss == {c \in Cos : st[c] = "done" /\ nres[c] = 0}
                 unfinished == {c \in Cos : st[c] \in {"ready", "delay", "park", "running"}}
             IN /\ (miss # {} => Viol("result_missing", miss))
                /\ (unfinished # {} => Viol("never_finished", unfinished))
                /\ nviol' = nviol + Count(miss # {}) + Count(unfinished # {})
-               /\ UNCHANGED <<scen, st, wake, cb, want, nres, passb>>
+               /\ UNCHANGED <<scen, st, wake, cb, want, nres, passb, pend>>
 Spec == Init /\ [][Step]_vars
 Accepted == /\ PrintT(<<"ACCEPT", TLCGet("stats").diameter - 1, N>>)
             /\ TLCGet("stats").diameter - 1 = N
